@@ -372,29 +372,38 @@ def simulate_and_replay(ctx, prop):
     num = 20 if ctx.quick else 500
     jobs = []
     sim_states = 0
+    todo = []
     for name in names:
         cancels = name.endswith('+cc')
         name = name.split('+')[0]
         for nw in (2, 3):
-            spec, cfg = write_mc(ctx.scratch, 'S%s%d%s' % (name, nw, 'cc' if cancels else ''), PROGS[name], nw, 'det', True, ['Dump'],
-                                 client_cancels=cancels)
-            # (more behaviours where the client cancels: the cancel that crosses the root's RESULT is one moment among ~40)
-            r = common.tlc(spec, cfg, scratch=ctx.scratch, timeout=600, workers=1, simulate='num=%d' % (num * 4 if cancels else num), depth=300,
-                           seed=ctx.seed + 1, cwd=ctx.scratch)
-            behs = []
-            for v in r.prints:
-                if v and v[0] == 'BEHAVIOUR':
-                    try:
-                        behs.append(json.loads(v[1]))
-                    except Exception:
-                        pass
-            sim_states += r.states
-            seen = set()
-            for b in behs:
-                h = common.digest(b)
-                if h not in seen:
-                    seen.add(h)
-                    jobs.append((PROGS[name], nw, b, cancels))
+            todo.append((name, nw, cancels))
+
+    def sim_one(item):
+        name, nw, cancels = item
+        spec, cfg = write_mc(ctx.scratch, 'S%s%d%s' % (name, nw, 'cc' if cancels else ''), PROGS[name], nw, 'det', True, ['Dump'],
+                             client_cancels=cancels)
+        # (more behaviours where the client cancels: the cancel that crosses the root's RESULT is one moment among ~40)
+        return common.tlc(spec, cfg, scratch=ctx.scratch, timeout=600, workers=1, simulate='num=%d' % (num * 4 if cancels else num), depth=300,
+                          seed=ctx.seed + 1, cwd=ctx.scratch, heap='2g')
+    from concurrent.futures import ThreadPoolExecutor
+    with ThreadPoolExecutor(5) as ex:
+        sims = list(ex.map(sim_one, todo))
+    for (name, nw, cancels), r in zip(todo, sims):
+        behs = []
+        for v in r.prints:
+            if v and v[0] == 'BEHAVIOUR':
+                try:
+                    behs.append(json.loads(v[1]))
+                except Exception:
+                    pass
+        sim_states += r.states
+        seen = set()
+        for b in behs:
+            h = common.digest(b)
+            if h not in seen:
+                seen.add(h)
+                jobs.append((PROGS[name], nw, b, cancels))
     if not jobs:
         raise common.MachineryError('TLC simulation produced no behaviours to replay')
     cx = mp.get_context('fork')
